@@ -43,11 +43,27 @@ ENSURES(MEMCPY_IDX < n IMPLIES ((const uint8_t *)dst)[MEMCPY_IDX] == ((const uin
 #ifdef VERIF_CBMC
 int G_mcmp_last; size_t G_mcmp_n; size_t G_mcmp_a; size_t G_mcmp_b; unsigned G_mcmp_calls;
 #endif
+#ifdef CONTRACT_MEMCMP_SEQ
+/* additionally: the compared bytes at the ghost index, and the position in the job's global event order */
+#ifdef VERIF_CBMC
+uint8_t G_mcmp_ak; uint8_t G_mcmp_bk; unsigned G_seq; unsigned G_mcmp_seq;
+#endif
+int memcmp(const void *a, const void *b, size_t n)
+REQUIRES(n == 0 || (RD_OK(a, n) && RD_OK(b, n)))
+ASSIGNS(G_mcmp_last, G_mcmp_n, G_mcmp_a, G_mcmp_b, G_mcmp_calls, G_mcmp_ak, G_mcmp_bk, G_seq, G_mcmp_seq)
+ENSURES(G_mcmp_last == RET && G_mcmp_n == n && G_mcmp_a == (size_t)a && G_mcmp_b == (size_t)b && G_mcmp_calls == OLD(G_mcmp_calls) + 1)
+ENSURES(G_seq == OLD(G_seq) + 1 && G_mcmp_seq == G_seq)
+ENSURES(G_mc < n IMPLIES (G_mcmp_ak == ((const uint8_t *)a)[G_mc] && G_mcmp_bk == ((const uint8_t *)b)[G_mc]))
+/* equal ranges agree at every index */
+ENSURES((RET == 0 && G_mc < n) IMPLIES ((const uint8_t *)a)[G_mc] == ((const uint8_t *)b)[G_mc])
+;
+#else
 int memcmp(const void *a, const void *b, size_t n)
 REQUIRES(n == 0 || (RD_OK(a, n) && RD_OK(b, n)))
 ASSIGNS(G_mcmp_last, G_mcmp_n, G_mcmp_a, G_mcmp_b, G_mcmp_calls)
 ENSURES(G_mcmp_last == RET && G_mcmp_n == n && G_mcmp_a == a && G_mcmp_b == b && G_mcmp_calls == OLD(G_mcmp_calls) + 1)
 ;
+#endif
 #else
 int memcmp(const void *a, const void *b, size_t n)
 REQUIRES(n == 0 || (RD_OK(a, n) && RD_OK(b, n)))
@@ -68,8 +84,20 @@ REQUIRES(len == 0 || WR_OK(ptr, len))
 ASSIGNS(len != 0: OBJ_UPTO((uint8_t *)ptr, len))
 ENSURES(G_mc < len IMPLIES ((const uint8_t *)ptr)[G_mc] == 0)
 ;
+#ifdef CONTRACT_MEMXOR_RECORDING
+#ifdef VERIF_CBMC
+uint8_t G_x_r; unsigned G_x_calls; size_t G_x_len; size_t G_x_rp;
+#endif
+void gmssl_memxor(void *r, const void *a, const void *b, size_t len)
+REQUIRES(len == 0 || (WR_OK(r, len) && RD_OK(a, len) && RD_OK(b, len)))
+ASSIGNS(len != 0: OBJ_UPTO((uint8_t *)r, len); G_x_r, G_x_calls, G_x_len, G_x_rp)
+ENSURES(G_x_calls == OLD(G_x_calls) + 1 && G_x_len == len && G_x_rp == (size_t)r)
+ENSURES(G_mc < len IMPLIES (((const uint8_t *)r)[G_mc] == (uint8_t)(OLD(((const uint8_t *)a)[G_mc < len ? G_mc : 0]) ^ OLD(((const uint8_t *)b)[G_mc < len ? G_mc : 0])) && G_x_r == ((const uint8_t *)r)[G_mc]))
+;
+#else
 void gmssl_memxor(void *r, const void *a, const void *b, size_t len)
 REQUIRES(len == 0 || (WR_OK(r, len) && RD_OK(a, len) && RD_OK(b, len)))
 ASSIGNS(len != 0: OBJ_UPTO((uint8_t *)r, len))
 ;
+#endif
 #endif
